@@ -10,12 +10,15 @@
   regenerated from the AST on every run, equals the reference the kernels were written against, and
   (ii) a bit-exact Float correspondence with the (ratio, dnorm, tau, delta, rho) observed in real runs).
   Theorems are exact-arithmetic (ℝ): rounding is NOT covered (watched by the search on the real table).
-  The table-shape clauses (rows, counters) are checked by the search only.
+  The table-shape clauses (rows, counters) are proved for every trace the `DiagAcc` acceptor accepts
+  (`C18_table_shape`); real runs' events are fed to that acceptor (correspondence).
 -/
 import DfolsVerif.Proofs.Radius
 import DfolsVerif.Gen.RadiusSrc
+import DfolsVerif.Gen.KernelFns
 import DfolsVerif.Spec.RadiusSrc
 import DfolsVerif.Accept.IterAcc
+import DfolsVerif.Accept.DiagAcc
 
 namespace Dfols
 namespace C18
@@ -26,6 +29,27 @@ open Radius
     radius-relevant guards), `reduce_rho`'s body and the definitions of `dnorm`, `tau` are textually the
     ones the kernels mirror. -/
 theorem radius_src_eq : Gen.radiusSrc = Spec.radiusSrc := by decide
+
+/-! ### layer G, translated code: the functions generated from /repo's AST on this run ARE the kernels -/
+
+/-- `Controller.reduce_rho`, as translated from the current source, is `Radius.reduceRho` -/
+theorem gen_reduceRho_eq {F : Type} (o : RadOps F) (p : TRParams F) (delta rho rhoend : F) :
+    Gen.reduceRho o p delta rho rhoend = reduceRho o p rho rhoend := rfl
+
+/-- the delta update after `calculate_ratio` in solver.py, as translated from the current source, is
+    `Radius.trUpdate` with the decrease factor chosen by `finished_growing` -/
+theorem gen_trUpdate_eq {F : Type} (o : RadOps F) (p : TRParams F) (g : F) (fg : Bool) (ratio dnorm tau delta rho : F) :
+    Gen.trUpdate o p g fg ratio dnorm tau delta rho =
+      trUpdate o { p with gammaDec := if fg then p.gammaDec else g } ratio dnorm tau delta rho := by
+  cases fg <;> rfl
+
+/-- `check_and_fix_geometry`'s reduction of delta, as translated, is `Radius.geomDelta` -/
+theorem gen_geomDelta_eq {F : Type} (o : RadOps F) (delta rho dist : F) :
+    Gen.geomDelta o delta rho dist = geomDelta o delta rho dist := rfl
+
+/-- the safety-step reduction in solver.py, as translated, is `Radius.geomDelta` at `sqrt(distsq)` -/
+theorem gen_safetyDelta_eq {F : Type} (o : RadOps F) (delta rho distsq : F) :
+    Gen.safetyDelta o delta rho distsq = geomDelta o delta rho (o.sqrt distsq) := rfl
 
 /-- the radius state `(delta, rho, rhoend)` and the operations the solver applies to it -/
 inductive ROp where
@@ -133,6 +157,47 @@ theorem C18_reduce_progress (p : TRParams ℝ) (rhobeg rhoend delta rho : ℝ) (
     without evaluating.  (The pinned tree violated the acceptor's `reduce_rho` rule and did spin.) -/
 theorem C18_no_stall {evs : List IterAcc.IEv} {s : IterAcc.St} (h : IterAcc.accept evs = .ok s) (hs : s.streak ≠ 0) :
     (s.streak : Int) ≤ s.startKey - s.endKey := IterAcc.no_stall h hs
+
+/-! ### the diagnostic table -/
+
+abbrev Row := Nat × Nat × Nat × Nat × Nat × Nat   -- (iters_total, nruns, iter_this_run, nf, nx, npt)
+
+theorem tableOK_unfold {maxNpt : Nat} : ∀ (l : List Row) (a b c : Nat), DiagAcc.TableOK maxNpt l a b c →
+    (∀ r ∈ l, r.2.1 ≤ a ∧ r.2.2.2.1 ≤ b ∧ r.2.2.2.2.1 ≤ c ∧ 2 ≤ r.2.2.2.2.2 ∧ r.2.2.2.2.2 ≤ maxNpt) ∧
+    l.Pairwise (fun newer older => older.2.1 ≤ newer.2.1 ∧ older.2.2.2.1 ≤ newer.2.2.2.1 ∧ older.2.2.2.2.1 ≤ newer.2.2.2.2.1) ∧
+    (∀ k (hk : k < l.length), (l[k]).1 = l.length - 1 - k)
+  | [], _, _, _, _ => ⟨by simp, List.Pairwise.nil, by simp⟩
+  | (i, r, t, f, x, p) :: rest, a, b, c, h => by
+    simp only [DiagAcc.TableOK] at h
+    obtain ⟨e1, e2, e3, e4, e5, e6, e7⟩ := h
+    obtain ⟨ih1, ih2, ih3⟩ := tableOK_unfold rest r f x e7
+    refine ⟨?_, ?_, ?_⟩
+    · intro q hq
+      rcases List.mem_cons.mp hq with rfl | hq
+      · exact ⟨e2, e3, e4, e5, e6⟩
+      · obtain ⟨g1, g2, g3, g4, g5⟩ := ih1 q hq
+        exact ⟨by omega, by omega, by omega, g4, g5⟩
+    · refine List.Pairwise.cons ?_ ih2
+      intro q hq
+      obtain ⟨g1, g2, g3, _, _⟩ := ih1 q hq
+      exact ⟨g1, g2, g3⟩
+    · intro k hk
+      cases k with
+      | zero => simp only [List.getElem_cons_zero, List.length_cons]; omega
+      | succ k =>
+        simp only [List.getElem_cons_succ, List.length_cons]
+        have := ih3 k (by simpa using hk)
+        omega
+
+/-- **C18, table clauses**: for every event sequence the diagnostic acceptor accepts (rows agree with the
+    evaluations, points and completed runs counted so far; `iter_this_run` counts 0,1,2,… within a run),
+    the table (newest row first) satisfies: every row's nruns / nf / nx is at most the final counters and
+    npt ∈ [2, maxNpt]; down the table nruns, nf, nx never decrease; `iters_total` is 0,1,2,… without gaps. -/
+theorem C18_table_shape {maxNpt : Nat} {evs : List DiagAcc.DEv} {s : DiagAcc.St} (h : DiagAcc.accept maxNpt evs = .ok s) :
+    (∀ r ∈ s.rows, r.2.1 ≤ s.nruns ∧ r.2.2.2.1 ≤ s.nf ∧ r.2.2.2.2.1 ≤ s.nx ∧ 2 ≤ r.2.2.2.2.2 ∧ r.2.2.2.2.2 ≤ maxNpt) ∧
+    s.rows.Pairwise (fun newer older => older.2.1 ≤ newer.2.1 ∧ older.2.2.2.1 ≤ newer.2.2.2.1 ∧ older.2.2.2.2.1 ≤ newer.2.2.2.2.1) ∧
+    (∀ k (hk : k < s.rows.length), (s.rows[k]).1 = s.rows.length - 1 - k) :=
+  tableOK_unfold _ _ _ _ (DiagAcc.table_ok h)
 
 /-! ### why the hypotheses are needed -/
 
